@@ -1070,3 +1070,45 @@ Proof.
   split; [apply aa_okb_spec; vm_compute; reflexivity|].
   intros A. apply aa_okb_spec in A. vm_compute in A. discriminate.
 Qed.
+
+(* ------------------------------------------------------------------ *)
+(* swapNode: the controller's memory and the status never part          *)
+
+Theorem swap_node_ctl_coherent v c from to ok :
+  ctl_mem c = ctl_stored c ->
+  ctl_mem (fst (swap_node_ctl v c from to ok)) = ctl_stored (fst (swap_node_ctl v c from to ok)).
+Proof.
+  intros H. unfold swap_node_ctl. destruct (swap_node v (ctl_mem c) from to) as [m' acc].
+  destruct acc; cbn; [reflexivity|exact H].
+Qed.
+
+(* so every later swap is applied to exactly the ensemble the balancer planned it from *)
+Corollary swap_node_ctl_sequence v : forall (ops : list (N * N * bool)) c,
+  ctl_mem c = ctl_stored c ->
+  let c' := fold_left (fun c op => fst (swap_node_ctl v c (fst (fst op)) (snd (fst op)) (snd op))) ops c in
+  ctl_mem c' = ctl_stored c'.
+Proof.
+  induction ops as [|op ops IH]; intros c H; cbn [fold_left]; [exact H|].
+  apply IH. apply swap_node_ctl_coherent, H.
+Qed.
+
+(* rolling the memory back after a failed election separates the two: the status says [2;3;4], the controller is back
+   on [1;2;3]; the balancer then plans 2 -> 5 from [2;3;4] (zones of 3 and 4 taken, zone of 1 free), the controller applies
+   it to [1;2;3] and stores [1;3;5]: servers 1 and 5 share their zone *)
+Definition md_zone5 : metadata := [(1, [(10, 1)]); (2, [(10, 2)]); (3, [(10, 3)]); (4, [(10, 4)]); (5, [(10, 1)])].
+
+Lemma swap_rollback_refuted :
+  let c0 := mkCtl (mkMd [1; 2; 3] []) (mkMd [1; 2; 3] []) in
+  let c1 := fst (swap_node_ctl_rollback Fixed c0 1 4 false) in
+  let c2 := fst (swap_node_ctl_rollback Fixed c1 2 5 true) in
+  m_ens (ctl_stored c1) = [2; 3; 4] /\ m_ens (ctl_mem c1) = [1; 2; 3] /\
+  In (Swap 5) (swap_shard Fixed (mkEnv md_zone5 strict_zone (Some [5; 1; 3; 4]) (Some 0)) [1; 3; 4; 5]
+                          (m_ens (ctl_stored c1)) 2) /\
+  m_ens (ctl_stored c2) = [1; 3; 5] /\
+  aa_ok md_zone5 strict_zone [2; 3; 4] /\ ~ aa_ok md_zone5 strict_zone [1; 3; 5].
+Proof.
+  cbv zeta. split; [vm_compute; reflexivity|]. split; [vm_compute; reflexivity|].
+  split; [vm_compute; auto|]. split; [vm_compute; reflexivity|].
+  split; [apply aa_okb_spec; vm_compute; reflexivity|].
+  intros A. apply aa_okb_spec in A. vm_compute in A. discriminate.
+Qed.
